@@ -413,7 +413,12 @@ Record bundle := Bundle { b_id : id; b_index : Z; b_override : bool; b_rules : l
 Inductive update :=
 | USetRule (r : rule) | UDeleteRule (g i : id) | USetRules (rs : list rule) | UBatch (ops : list bop)
 | USetGroup (g : group) | UDeleteGroup (gid : id)
-| USetBundle (b : bundle) | USetAllBundles (bs : list bundle) (override : bool) | UDeleteBundle (gid : id).
+| USetBundle (b : bundle) | USetAllBundles (bs : list bundle) (override : bool) | UDeleteBundle (gid : id)
+(* the update is issued while the store set is such that the rules with these version numbers match no store
+   (RuleManager has a StoreSetInformer with at least one store): adjustRule refuses such a rule from a client.
+   Only clients are checked: loadRules does not look at the stores (fix of the load path), so what a leader
+   accepted is served by every later leader whatever became of the stores. *)
+| UWithStores (unmatched : list Z) (u : update).
 
 Fixpoint adjust_all (rs : list rule) (bundle_gid : option id) : option (list rule) :=
   match rs with
@@ -431,8 +436,20 @@ Definition bundle_patch (b : bundle) (p : patch) : option patch :=
   end.
 
 (* the patch an update builds from the served configuration; None = rejected by adjustRule *)
-Definition make_patch (c : config) (u : update) : option patch :=
+Definition added_rules (u : update) : list rule :=
   match u with
+  | USetRule r => [r]
+  | USetRules rs => rs
+  | UBatch ops => flat_map (fun o => match o with BAdd r => [r] | _ => [] end) ops
+  | USetBundle b => b_rules b
+  | USetAllBundles bs _ => flat_map b_rules bs
+  | _ => []
+  end.
+
+Fixpoint make_patch (c : config) (u : update) {struct u} : option patch :=
+  match u with
+  | UWithStores unmatched u' =>
+      if existsb (fun r => existsb (Z.eqb (r_ver r)) unmatched) (added_rules u') then None else make_patch c u'
   | USetRule r => option_map (fun r' => p_set_rule r' empty_patch) (adjust_rule r None)
   | UDeleteRule g i => Some (p_delete_rule g i empty_patch)
   | USetRules rs => option_map (fun rs' => fold_left (fun p r => p_set_rule r p) rs' empty_patch) (adjust_all rs None)
@@ -681,6 +698,16 @@ Definition rules_of_update (u : update) : list rule :=
   | UBatch ops => flat_map (fun o => match o with BAdd r => [r] | _ => [] end) ops
   | USetBundle b => map (fun r => if is_nil (r_gid r) then set_gid r (b_id b) else r) (b_rules b)
   | USetAllBundles bs _ => flat_map (fun b => map (fun r => if is_nil (r_gid r) then set_gid r (b_id b) else r) (b_rules b)) bs
+  | UWithStores _ u' => (fix go (u : update) : list rule :=
+                           match u with
+                           | USetRule r => [r]
+                           | USetRules rs => rs
+                           | UBatch ops => flat_map (fun o => match o with BAdd r => [r] | _ => [] end) ops
+                           | USetBundle b => map (fun r => if is_nil (r_gid r) then set_gid r (b_id b) else r) (b_rules b)
+                           | USetAllBundles bs _ => flat_map (fun b => map (fun r => if is_nil (r_gid r) then set_gid r (b_id b) else r) (b_rules b)) bs
+                           | UWithStores _ u'' => go u''
+                           | _ => []
+                           end) u'
   | _ => []
   end.
 Definition rules_of_op (o : op) : list rule :=
